@@ -58,7 +58,7 @@ func TestC03Threshold(t *testing.T) {
 			rec.Violation(rt, f.Key, f.Detail+" || case: "+fmt.Sprintf("%s n=%d t=%d down=%d :: %s", cfg.Scheme, cfg.N, cfg.T, len(down), strings.Join(hist, " ")),
 				map[string]any{"history": hist, "finding": f.Artefact})
 		}
-		epoch := func(uint64) *fx.Net { return net.Live }
+		epoch := func(*Node, uint64) *fx.Net { return net.Live }
 		rounds := rapid.IntRange(2, 5).Draw(rt, "rounds")
 		net.NextStep()
 		net.Advance(nil, cfg.GenesisIn)
